@@ -35,6 +35,11 @@ func GenCatalogue() []GenLayout {
 		tl(VideoRep("V300", 90000, 3000, alt)),
 		tl(AudioRep("A48", 1024, AudioDursFollowing(alt, 90000, 48000, 1024, 0))))
 
+	v10m := UniformDurs(4, 20000000)
+	add("ok", "timescale 10 MHz (Smooth-Streaming style), 4 x 2 s at 25 fps, $Time$: products with 1000 leave 64 bits after 58 years", "g_10mhz_tl",
+		tl(VideoRep("V1", 10000000, 400000, v10m)),
+		tl(AudioRep("A48", 1024, AudioDursFollowing(v10m, 10000000, 48000, 1024, 0))))
+
 	// representations with different numbers of segments per loop in one asset
 	v4s := UniformDurs(2, 360000)
 	add("ok", "2 x 4 s video, 4 x 2 s stpp subtitles, 8 x 1 s thumbnails, audio following the video", "g_mixed_n",
